@@ -25,6 +25,9 @@ Req(q, sf, lf, qt, qc) == [qname |-> q, search |-> sf, life |-> lf, qtype |-> qt
 MCRequests == {Req(<<"www">>, "true", 0, "A", "IN"), Req(<<"www", "s1", "">>, "none", 0, "A", "IN")}
 MCRequests1 == {Req(<<"www">>, "true", 0, "A", "IN")}
 (* cache scenarios: same and different names x classes {IN, CH} x types {A, TXT} *)
+MCRequestsCq == {Req(<<"www", "s1", "">>, "none", 0, "A", "IN"), Req(<<"www", "s1", "">>, "none", 0, "A", "CH"),
+                 Req(<<"www", "s1", "">>, "none", 0, "TXT", "IN"), Req(<<"ftp", "s1", "">>, "none", 0, "A", "CH"),
+                 Req(<<"www">>, "true", 0, "A", "IN")}
 MCRequestsC == {Req(q, "none", 0, qt, qc) : q \in {<<"www", "s1", "">>, <<"ftp", "s1", "">>}, qt \in {"A", "TXT"}, qc \in {"IN", "CH"}}
                \cup {Req(<<"www">>, "true", 0, "A", "IN")}
 MCBackoff == <<2, 3, 6, 13, 26, 32>>     \* 0.1 s doubling, capped at 2 s, in 1/16 s ticks (rounded)
